@@ -353,6 +353,38 @@ def c14e(ctx, prog):
         ctx.fail(o, "(program)", "expected registry + 2 store discriminants, found %d sites" % n)
 
 
+def c14f(ctx, prog):
+    """Compile-time witness (E4): rustc's const evaluator computes the repository's own const fns inside a generated
+    crate of `const _: () = assert!(..)` items; a violated assertion is a build error naming the type / byte."""
+    from .. import witness
+    if ctx.key_prefix:
+        return  # one witness per run; the second (workspace) pass of the thorough tier adds nothing to it
+    selfs = {im["self_ty"] for im in prog.impls if (im.get("trait") or "").endswith("Identifiable")}
+    full = ctx.tier == "thorough"
+    n_types, n_assert, failures = witness.run(selfs, full=full)
+    o = ctx.ob("C14.f", "witness/universe-ids-pairwise-distinct", "E4",
+               "the STABLE_TYPE_IDs of a constructor-closed universe (argument order, nesting, arity, pointer kind, unsized pointees) are pairwise distinct — const-evaluated by rustc")
+    o.sites = n_types
+    o.detail = "%d types, %d const assertions, %s universe" % (n_types, n_assert, "full" if full else "quick")
+    if n_types < (6000 if full else 2000):
+        ctx.fail(o, "(program)", "the witness universe shrank to %d types" % n_types)
+    o2 = ctx.ob("C14.f", "witness/every-name-byte-and-the-length-reach-the-id", "E4",
+                "flipping any single byte of a 1..41-byte name, appending a NUL, or dropping the last byte changes from_unique_type_name — const-evaluated by rustc")
+    o2.sites = sum(range(1, 42)) + 2 * 41
+    o3 = ctx.ob("C14.f", "witness/combine-is-ordered-and-not-absorbing", "E4", "combine(a, b) != combine(b, a) and != a on base ids — const-evaluated by rustc")
+    o3.sites = 8
+    by = {"universe-distinct": o, "name-byte": o2, "name-length": o2, "combine-order": o3, "combine-absorbs": o3}
+    for kind, what in failures:
+        oo = by.get(kind, o)
+        if kind == "universe-distinct":
+            msg = "the id of `%s` is shared with another type of the universe" % what
+        elif kind.startswith("name-"):
+            msg = "StableTypeID::from_unique_type_name does not depend on %s: two different type names receive one id" % what
+        else:
+            msg = what
+        ctx.fail(oo, "crates/stable_type_id/src/lib.rs (const-evaluated)", msg)
+
+
 def run(ctx):
     prog = ctx.prog
     impls = id_impls(prog)
@@ -365,3 +397,4 @@ def run(ctx):
     ctx.run_clause("C14.c", lambda c: c14c(c, prog))
     ctx.run_clause("C14.d", lambda c: c14d(c, prog))
     ctx.run_clause("C14.e", lambda c: c14e(c, prog))
+    ctx.run_clause("C14.f", lambda c: c14f(c, prog))
